@@ -172,8 +172,9 @@ impl Gen {
             }
             Family::Pst13 => {
                 let nv = self.small(1, 4);
-                let max_degree = self.small(1, if nv >= 4 { 3 } else { 4 });
-                let supported = self.r.gen_range(1..=max_degree);
+                let dmax = match nv { 1 | 2 => 5, 3 => 4, _ => 3 };
+                let max_degree = if self.r.gen_bool(0.5) { self.r.gen_range(1..=dmax) } else { self.small(1, dmax) };
+                let supported = if self.r.gen_bool(0.4) { max_degree } else { self.r.gen_range(1..=max_degree) };
                 let cfg = KeyCfg { max_degree, num_vars: Some(nv), supported_degree: supported, supported_hiding: supported, bounds: None, lincode: None };
                 let mut polys = vec![];
                 for i in 0..n_polys {
